@@ -345,6 +345,13 @@ func (ts *Terms) Bin(op Op, a, b *Term) *Term {
 		v, _ := evalBin(op, w, a.C, b.C)
 		return ts.BV(v, w)
 	}
+	// op(ite-tree of constants, constant): push the operation into the leaves
+	if b.IsConst() && a.Op == OpIte && constIteLeaves(a, 64) > 0 {
+		return ts.mapConstIte(a, func(l *Term) *Term { return ts.Bin(op, l, b) })
+	}
+	if a.IsConst() && b.Op == OpIte && constIteLeaves(b, 64) > 0 {
+		return ts.mapConstIte(b, func(l *Term) *Term { return ts.Bin(op, a, l) })
+	}
 	switch op {
 	case OpAdd, OpBOr, OpBXor:
 		if a.IsConst() && a.C == 0 {
@@ -443,6 +450,12 @@ func (ts *Terms) Cmp(op Op, a, b *Term) *Term {
 	}
 	if a == b {
 		return ts.Bool(op == OpULe || op == OpSLe)
+	}
+	if b.IsConst() && a.Op == OpIte && constIteLeaves(a, 64) > 0 {
+		return ts.mapConstIte(a, func(l *Term) *Term { return ts.Cmp(op, l, b) })
+	}
+	if a.IsConst() && b.Op == OpIte && constIteLeaves(b, 64) > 0 {
+		return ts.mapConstIte(b, func(l *Term) *Term { return ts.Cmp(op, a, l) })
 	}
 	if op == OpULt && b.IsConst() && b.C == 0 {
 		return ts.F
@@ -855,3 +868,31 @@ func pretty(t *Term, d int) string {
 }
 
 var _ = bits.Len
+
+// constIteLeaves counts the leaves of an if-then-else tree whose leaves are all constants
+// (0 if t is not such a tree or has more than max leaves).
+func constIteLeaves(t *Term, max int) int {
+	if t.IsConst() {
+		return 1
+	}
+	if t.Op != OpIte {
+		return 0
+	}
+	a := constIteLeaves(t.Args[1], max)
+	if a == 0 {
+		return 0
+	}
+	b := constIteLeaves(t.Args[2], max-a)
+	if b == 0 || a+b > max {
+		return 0
+	}
+	return a + b
+}
+
+// mapConstIte applies f to every (constant) leaf of an if-then-else tree.
+func (ts *Terms) mapConstIte(t *Term, f func(*Term) *Term) *Term {
+	if t.IsConst() {
+		return f(t)
+	}
+	return ts.Ite(t.Args[0], ts.mapConstIte(t.Args[1], f), ts.mapConstIte(t.Args[2], f))
+}
